@@ -267,3 +267,12 @@ def run(ctx):
     r6_drop_is_reset(ctx)
     from . import C20
     C20.r3_flush_handover(ctx, 'C17.R7')  # a reset discards only the reset stream's own in-flight DATA
+
+
+_run_rules = run
+
+
+def run(ctx):
+    _run_rules(ctx)
+    from .. import boundaries
+    boundaries.check_calls(ctx, 'C17.RC', 'C17')
